@@ -58,7 +58,9 @@ theorem accel_eq_cold_core (cfg : Cfg) (dev : Nat) (cs₀ cs₁ : Children) (rec
     match scan cfg (prevOf out₀ recheck) (some (.dir dev cs₁)), scanCold cfg (some (.dir dev cs₁)) with
     | .ok w, .ok c => w.snapshot = c.snapshot ∧ w.cache = c.cache ∧ IgnOK cfg w.ignoreCache ∧ IgnOK cfg c.ignoreCache ∧
         (∀ k, k ∈ ikeys w.ignoreCache → k ∈ ikeys c.ignoreCache) ∧
-        (∀ k, k ∈ ikeys c.ignoreCache → k ∈ ikeys w.ignoreCache ∨ ∃ cp, cp ≠ "" ∧ cp ∉ dirty ∧ Under k.1 cp)
+        (∀ k, k ∈ ikeys c.ignoreCache → k ∈ ikeys w.ignoreCache ∨
+          ∃ cp B, cp ≠ "" ∧ cp ∉ dirty ∧ BaseAt E₀ cp B ∧ Under k.1 cp ∧
+            ¬ (TrackedKey cp B k ∧ k ∈ ikeys out₀.ignoreCache))
     | .error e, .error e' => e = e'
     | _, _ => False := by
   -- the cold scan of the old tree
@@ -83,27 +85,30 @@ theorem accel_eq_cold_core (cfg : Cfg) (dev : Nat) (cs₀ cs₁ : Children) (rec
   subst hout₀
   -- its ignore cache agrees with the ignorer
   have hign₀ : IgnOK { cfg with deviceID := dev } d₀.newIgnore := by
-    have := sim_node { cfg with deviceID := dev } {} (fun kv hkv => by cases hkv) (.dir dev cs₀) "" true false (.none, "") none none
+    have := sim_node { cfg with deviceID := dev } {} E₀ (fun kv hkv => by cases hkv) (.dir dev cs₀) "" true false (.none, "") none none
       false (.none, "") (NamesOK_dev cfg dev validName _ hok₀)
-      ⟨(fun q _ => rfl), (fun c hc => by cases hc), (fun c hc => by cases hc)⟩ (Or.inl rfl) (fun c hc => by cases hc)
+      ⟨(fun q _ => rfl), (fun c hc => by cases hc), (fun c hc => by cases hc)⟩ (Or.inl rfl) (fun bb hbb => by cases hbb)
+      (fun c hc => by cases hc)
     simp only [cold] at this
     rw [hs₀] at this
     exact this.2.2.2.2.2.2.1
   have hign₁ : IgnOK { cfg with deviceID := dev }
       (scanNode { cfg with deviceID := dev } {} "" true none false (.none, "") (.dir dev cs₁) {}).2.newIgnore := by
-    have := sim_node { cfg with deviceID := dev } {} (fun kv hkv => by cases hkv) (.dir dev cs₁) "" true false (.none, "") none none
+    have := sim_node { cfg with deviceID := dev } {} E₀ (fun kv hkv => by cases hkv) (.dir dev cs₁) "" true false (.none, "") none none
       false (.none, "") (NamesOK_dev cfg dev validName _ hok₁)
-      ⟨(fun q _ => rfl), (fun c hc => by cases hc), (fun c hc => by cases hc)⟩ (Or.inl rfl) (fun c hc => by cases hc)
+      ⟨(fun q _ => rfl), (fun c hc => by cases hc), (fun c hc => by cases hc)⟩ (Or.inl rfl) (fun bb hbb => by cases hbb)
+      (fun c hc => by cases hc)
     simp only [cold] at this
     exact this.2.2.2.2.2.2.1
   -- the accelerated scan
   rw [prevOf, scan_accel_dir cfg _ recheck d₀.newCache d₀.newIgnore dev cs₁ E₀ dirty rfl hrootk rfl rfl hr hdirty, scanCold_dir]
-  have hsim := sim_node { cfg with deviceID := dev } { dirty := dirty, cache := d₀.newCache, ignoreCache := d₀.newIgnore } hign₀
+  have hsim := sim_node { cfg with deviceID := dev } { dirty := dirty, cache := d₀.newCache, ignoreCache := d₀.newIgnore } E₀ hign₀
     (.dir dev cs₁) "" true false (.none, "") (some E₀) (some (.dir dev cs₀)) false (.none, "")
     (NamesOK_dev cfg dev validName _ hok₁)
     ⟨(fun q _ => by simp only [cold]; rw [hs₀]), (fun c hc => by cases hc; exact NamesOK_dev cfg dev validName _ hok₀),
       (fun c hc _ _ => rfl)⟩
     (Or.inr ⟨_, E₀, rfl, by simp only [cold]; rw [hs₀], hrootk, rfl⟩)
+    (fun bb hbb => by cases hbb; exact BaseAt.root)
     (fun c hc => by cases hc; exact covers_dev cfg dev dirty _ _ _ hcov)
   simp only [cold] at hsim
   cases hra : scanNode { cfg with deviceID := dev } { dirty := dirty, cache := d₀.newCache, ignoreCache := d₀.newIgnore } "" true
@@ -206,12 +211,13 @@ theorem accel_eq_cold_file_core (cfg : Cfg) (c₀ : Bytes) (p₀ : Nat) (m₀ : 
     exact this
   obtain ⟨X, hX⟩ := scan_accel_file cfg out₀.snapshot recheck out₀.cache out₀.ignoreCache c₁ p₁ m₁ s₁ i₁ dirty hr hdirty
   rw [prevOf, hX, scanCold_file, hcache₀, hignc₀, hnil₀]
-  have hsim := sim_node cfg { dirty := X, cache := d₀.newCache, ignoreCache := [] } (fun kv hkv => by cases hkv)
+  have hsim := sim_node cfg { dirty := X, cache := d₀.newCache, ignoreCache := [] } untracked (fun kv hkv => by cases hkv)
     (.file c₁ p₁ m₁ s₁ i₁) "" true false (.none, "") none (some (.file c₀ p₀ m₀ s₀ i₀)) false (.none, "")
     trivial
     ⟨(fun q _ => by simp only [cold]; rw [hs₀]), (fun c hc => by cases hc; trivial),
       (fun c hc h _ => by cases hc; cases h)⟩
     (Or.inl rfl)
+    (fun bb hbb => by cases hbb)
     (fun c hc => by cases hc; exact hcov)
   simp only [cold] at hsim
   have hnil₁ : (scanNode cfg {} "" true none false (.none, "") (.file c₁ p₁ m₁ s₁ i₁) {}).2.newIgnore = [] := by
